@@ -11,7 +11,7 @@ from tools.lib import impl as I
 from tools.lib import proofs as P
 
 LEVEL = "proof"
-HDR = "From Coq Require Import ZArith List Bool.\nFrom Flox Require Import Val Cases.\nImport ListNotations.\nOpen Scope Z_scope.\n"
+HDR = "From Coq Require Import ZArith List Bool QArith.\nFrom Flox Require Import Val Cases.\nImport ListNotations.\nOpen Scope Z_scope.\n"
 
 
 def eval_simple(run, name, fn, coq, label):
